@@ -70,13 +70,14 @@ Fixpoint cheb_pair (p0 p1 : list Q) (n : nat) : list Q * list Q :=
 Definition chebT (n : nat) : list Q := fst (cheb_pair [1] [0; 1] n).
 Definition chebU (n : nat) : list Q := fst (cheb_pair [1] [0; 2] n).
 
-(* Gegenbauer C^(lam)_n :  (n+2) C_{n+2} = 2 (n+1+lam) x C_{n+1} - (n+2 lam) C_n,  C_0 = 1, C_1 = 2 lam x *)
+(* Gegenbauer C^(lam)_n :  (n+2) C_{n+2} = 2 (n+1+lam) x C_{n+1} - (n+2 lam) C_n,  C_0 = 1, C_1 = 2 lam x
+   (coefficients kept in lowest terms: Qred is the identity up to Qeq) *)
 Fixpoint geg_pair (lam : nat) (n : nat) : list Q * list Q :=
   match n with
   | O => ([1], [0; 2 * Qn lam])
   | S n' => let '(a, b) := geg_pair lam n' in
-            (b, pscale (1 / Qn (n' + 2))
-                  (psub (pscale (2 * Qn (n' + 1 + lam)) (pX b)) (pscale (Qn (n' + 2 * lam)) a)))
+            (b, map Qred (pscale (1 / Qn (n' + 2))
+                  (psub (pscale (2 * Qn (n' + 1 + lam)) (pX b)) (pscale (Qn (n' + 2 * lam)) a))))
   end.
 Definition geg (lam n : nat) : list Q := fst (geg_pair lam n).
 
